@@ -6,7 +6,7 @@ CONFIG = {'gen': [],
          '(every prefix of valid encodings, corruptions, every format byte, random bytes). Values: string lengths 0..300 (thorough '
          '0..1100) and 4096/65533/65535/65536 in every format, packed dates and pipe-status words on a grid (thorough: all 65536 each), '
          'every WordCount 0..255, data lengths around 255/256/65535, out-of-domain values (embedded NUL, counts out of step, long names); '
-         'buffers have cap == len; distinct = distinct input line; non-trivial = implementation output is a non-empty value',
+         'buffers have cap == len; distinct = distinct input line; non-trivial = implementation output is a non-empty value Half of the decodes (chosen by the input bytes) go into a receiver that has already decoded other bytes, successfully or not.',
  'assumptions': ['encoding/binary Put/Uint16/32, append, copy and slice-bounds checks behave as modelled',
                  'Unmarshal is run on a fresh receiver (every decoder overwrites all fields on success)',
                  'integer endianness is taken from the code (SMB_FILE_ATTRIBUTES, AndXOffset, parameter words big-endian): conformance is '
